@@ -83,13 +83,14 @@ Lemma silence_state_spec td tf cur d :
   = spec_silence_state td tf cur d.
 Proof.
   intros Htd Htf. unfold Gen.Lifecycle.connectionStateForDisconnection, spec_silence_state.
-  destruct (Z.eqb_spec tf 0) as [E|NE].
-  - subst. cbn. destruct (negb (td =? 0) && (td <? d)); reflexivity.
-  - assert (Hnz : (tf + td =? 0) = false) by (apply Z.eqb_neq; lia).
-    rewrite Hnz. cbn [negb andb]. replace (td + tf) with (tf + td) by lia.
-    destruct (negb (td =? 0) && (td <? d)), (tf + td <? d); cbn;
-      unfold ConnectionStateDisconnected, ConnectionStateFailed, ConnectionStateConnected;
-      destruct (cur =? 6), (cur =? 5); reflexivity.
+  unfold ConnectionStateDisconnected, ConnectionStateFailed, ConnectionStateConnected. cbv zeta.
+  (* independent of the shape of the translated expression: decide every comparison, then compute *)
+  destruct (Z.eqb_spec tf 0) as [E|NE]; [subst tf|].
+  all: repeat match goal with
+  | |- context [Z.eqb ?a ?b] => lazymatch a with 0 => fail | _ => destruct (Z.eqb_spec a b) end
+  | |- context [Z.ltb ?a ?b] => destruct (Z.ltb_spec a b)
+  end.
+  all: cbn [negb andb orb Z.eqb]; first [reflexivity | exfalso; lia].
 Qed.
 
 Lemma frame_conn_ping cfg l r : sat (frame s_conn) (ping_candidate cfg l r).
@@ -223,9 +224,8 @@ Qed.
 Lemma checking_deadline_spec cfg :
   initial_checking_timeout cfg = spec_checking_deadline cfg.
 Proof.
-  unfold initial_checking_timeout, Gen.Lifecycle.initialCheckingTimeout, spec_checking_deadline.
-  destruct (cf_failed_timeout cfg =? 0); [reflexivity|].
-  destruct (cf_lite cfg && negb (cf_disc_explicit cfg)); reflexivity.
+  unfold initial_checking_timeout, Gen.Lifecycle.initialCheckingTimeout, spec_checking_deadline, defaultDisconnectedTimeout.
+  cbv zeta. destruct (Z.eqb_spec (cf_failed_timeout cfg) 0), (cf_lite cfg), (cf_disc_explicit cfg); cbn [andb negb]; first [reflexivity | lia].
 Qed.
 
 (* ---- lifecycle graph --------------------------------------------------------------------------- *)
